@@ -1,5 +1,6 @@
 mod bddgen;
 mod cnfgen;
+mod clistream;
 mod cnfstream;
 mod compstream;
 mod optstream;
@@ -8,6 +9,7 @@ mod ordstream;
 mod tdstream;
 mod upstream;
 mod common;
+mod ffistream;
 mod ringstream;
 mod rng;
 mod sddstream;
@@ -77,6 +79,13 @@ fn main() {
             "comp" => vec![compstream::comp_line(&mut rng, maxvars)],
             "query" => vec![querystream::query_line(&mut rng, maxvars, maxops)],
             "ser" => serstream::ser_lines(&mut rng, idx, maxvars, maxops),
+            "ffi" => vec![ffistream::ffi_line(&mut rng, maxvars, maxops)],
+            "cli" => {
+                let bindir: String = arg(&args, "bindir", "/verif/.build/cli-target/debug".to_string());
+                let scratch: String = arg(&args, "scratch", "/verif/.build/cli-scratch".to_string());
+                let _ = std::fs::create_dir_all(&scratch);
+                clistream::cli_lines(&mut rng, idx, maxvars, &bindir, &scratch)
+            }
             "ring" => ringstream::ring_lines(&mut rng, idx),
             "tbl" => vec![tblstream::tbl_line(&mut rng, maxops)],
             "lru" => vec![tblstream::lru_line(&mut rng, maxops)],
